@@ -32,7 +32,7 @@ INVARIANT JacIsDerivative
 CHECK_DEADLOCK FALSE
 """
 
-TRANSLATABLE = ["two", "id", "neg", "dbl", "inc", "add", "sub", "mul", "mad", "step", "sel", "cut", "swp"]
+TRANSLATABLE = ["two", "id", "neg", "dbl", "inc", "add", "sub", "mul", "mad", "step", "sel", "cut", "swp", "pos"]
 UNTRANSLATABLE = {"loopinc", "dsum"}
 OPTIONAL = ["dflt", "cap"]   # a translator may refuse these or translate them correctly, never wrongly
 
